@@ -26,7 +26,7 @@ CLAIMED = {
     },
     "C08": {
         "engine": "E6 vguard + E8 witness",
-        "technique": "static analysis: who-may-construct + dominance of acceptance by the root comparison; scope-predicate dependence of confirm_*; error-variant raise-site inventory; iterator-provenance of the loops that raise scope/order errors (whole input collection); whole-leaf comparison in confirm_value*; compile-fail witnesses",
+        "technique": "static analysis: who-may-construct + dominance of acceptance by the root comparison and dependence of the recomputed root on the queried key; scope-predicate dependence of confirm_*; error-variant raise-site inventory; iterator-provenance of the loops that raise scope/order errors (whole input collection); whole-leaf comparison in confirm_value*; compile-fail witnesses",
         "text": "Thin structural claim: Verified* objects are constructible only behind the root-equality check, every confirm_* result depends on a scope predicate, every documented rejection reason has a raising site on the verifier's path, the loops raising scope/order errors iterate the whole input collection (no skip/take/chunks), and confirm_value* compares the whole leaf (key path and value hash). Does not decide that the comparisons are the right ones nor hashing correctness.",
         "design_ref": "DESIGN.md 4 (E6, E8), 5 (C08)",
         "note": _NOTE,
@@ -54,14 +54,14 @@ CLAIMED = {
     },
     "C14": {
         "engine": "E2 errflow",
-        "technique": "static analysis: error-discipline dataflow over MIR (no dropped I/O Result or CompleteIo.result, tasks joined and propagated, error exits after an effect poison)",
-        "text": "Error discipline for every call site: no I/O-carrying Result/CompleteIo is dropped; every task result is joined and propagated; every error exit after an effect poisons; Store::commit refuses when poisoned. On-disk atomicity after a failure is not decided.",
+        "technique": "static analysis: error-discipline dataflow over MIR (no dropped I/O Result or CompleteIo.result, tasks joined and propagated, error exits after an effect poison); enumeration of the completion classifier over all I/O kinds; bounded-region termination for bucket probing; forward use analysis of partial-I/O byte counts",
+        "text": "Error discipline for every call site: no I/O-carrying Result/CompleteIo is dropped; every task result is joined and propagated; every error exit after an effect poisons; Store::commit refuses when poisoned; a failed completion can never be classified as success or retried for ever; bucket allocation is bounded; the byte count of every partial write/read is looked at. On-disk atomicity after a failure is not decided.",
         "design_ref": "DESIGN.md 4 (E2), 5 (C14)",
         "note": _NOTE,
     },
     "C15": {
         "engine": "E4 lockgraph (+E8 witness)",
-        "technique": "static analysis: lock-order graph over MIR (guard live ranges, holder structs, call-graph closure) + who-may-call / dominance rules for the access lock",
+        "technique": "static analysis: lock-order graph over MIR (guard live ranges, holder structs, call-graph closure; the read-transaction counter as a shared/exclusive barrier) + who-may-call / dominance rules for the access lock; session switches decided by conditional constant propagation",
         "text": "Lock discipline: the held->acquired relation over all lock classes (incl. escaping guards and the read-transaction barrier) is acyclic; store/rollback mutation happens only under the access write guard; root check-and-set inside one write-guard acquisition; only Nomt::rollback creates a guard-less session. Observed values and channel liveness are not decided.",
         "design_ref": "DESIGN.md 4 (E4), 5 (C15)",
         "note": _NOTE,
@@ -82,15 +82,15 @@ CLAIMED = {
     },
     "C19": {
         "engine": "E9 reclaim",
-        "technique": "static analysis: counter/state-change pairing by dominance inside the sync loop, who-may-write on the occupancy counter, initialisation order w.r.t. recovery, dataflow of freed page lists from the update stages to the free list of the same store, reuse-before-growth dominance, must-pass-through chain for the release of replaced overflow cells",
-        "text": "Structure only: the reported hash-table occupancy is a counter that follows every bucket state change of a sync (set_full / set_tombstone paired with +1 / -1), is initialised from the occupancy map after recovery and is written nowhere else; the pages each update stage frees (replaced pages and the tracker's extra_freed) are handed to the finisher of the same value file, to FreeList::commit and to the free-list encoder; the allocator consults the free list before growing; a replaced or deleted overflow value is reported on every path of LeafUpdater::keep_up_to and flows through the leaf stage into overflow::delete and freed_pages. Whether every page is accounted for and the count is right is not decided.",
-        "design_ref": "DESIGN.md 10.2 (U1-U4)",
+        "technique": "static analysis: counter/state-change pairing by dominance inside the sync loop, who-may-write on the occupancy counter, initialisation order w.r.t. recovery, dataflow of freed page lists from the update stages to the free list of the same store, reuse-before-growth dominance, must-pass-through chain for the release of replaced overflow cells, release-or-put-back pairing for entries taken out of the free list's own page table",
+        "text": "Structure only: the reported hash-table occupancy is a counter that follows every bucket state change of a sync (set_full / set_tombstone paired with +1 / -1), is initialised from the occupancy map after recovery and is written nowhere else; the pages each update stage frees (replaced pages and the tracker's extra_freed) are handed to the finisher of the same value file, to FreeList::commit and to the free-list encoder; the allocator consults the free list before growing; a replaced or deleted overflow value is reported on every path of LeafUpdater::keep_up_to and flows through the leaf stage into overflow::delete and freed_pages; every free-list page taken out of FreeList.portions is released or put back. Whether every page is accounted for and the count is right is not decided.",
+        "design_ref": "DESIGN.md 10.2 (U1-U5)",
         "note": _NOTE,
     },
     "C20": {
         "engine": "E7 dirlock",
-        "technique": "static analysis: must-pass-through dominance of file-touching calls by Flock::lock in open/create, constant flock flags, lock lifetime flow into Shared, drop order",
-        "text": "No path of Store::open/create touches a database file before holding the exclusive non-blocking directory lock; the lock lives exactly as long as the handle; the io pool is drained before release; single unlock site. Kernel flock semantics are assumed.",
+        "technique": "static analysis: must-pass-through dominance of file-touching calls by Flock::lock in open/create, constant flock flags, lock lifetime flow into Shared, drop order; who-may-call + constant-flag rule for raw descriptor-creating libc calls (O_CLOEXEC); must-join-on-every-exit of spawned tasks in Sync::sync over the happens-before model (one-bit path sensitivity incl. Option variants)",
+        "text": "No path of Store::open/create touches a database file before holding the exclusive non-blocking directory lock; the lock lives exactly as long as the handle; the io pool is drained before release; single unlock site; no descriptor is created without close-on-exec (a child process cannot inherit the lock); every task a sync spawns is joined on every path to every return of Sync::sync, error exits included, so a failed commit cannot hand back control with a writer alive. Kernel flock semantics are assumed; a panic inside a sync is not covered.",
         "design_ref": "DESIGN.md 4 (E7), 5 (C20)",
         "note": _NOTE,
     },
